@@ -104,6 +104,10 @@ def rand_comp(rng, dirs, hi):
         return dict(ERR)
     if r < 0.25:
         return dict(UNDEF)
+    if r < 0.32 and dirs != "-":
+        # township / range 0 (a defined number): written with the first direction of its axis only, since '0n' and '0s'
+        # (the same line on the ground) tie in the code and the statement does not order them
+        return {"k": "num", "n": 0, "d": dirs[0]}
     return {"k": "num", "n": rng.randint(1, hi), "d": rng.choice(dirs)}
 
 
@@ -180,7 +184,7 @@ def run(ctx):
                 "Tract/TRS objects in TractList/TRSList/PLSSDesc, 45%% of them through the other routes to the same sort (the keys as a "
                 "list / tuple; group_by(sort_key=), sort_grouped() and grouping a second batch into= the sorted groups of the first (method and module-level function): one record per group; unpack_group(sort_key=)); non-trivial = distinct (container, key, list) with >= 2 "
                 "elements" % cfg_e["MaxLen"])
-    ctx.assumptions += ["township/range number 0 is not generated (north 0 and south 0 tie in the code; not a real township)",
+    ctx.assumptions += ["township / range number 0 is generated with one direction per axis only ('0n', '0e'): north 0 and south 0 tie in the code",
                         "keys such as 't.foo' (partially interpreted with a warning) are not claimed (R3)"]
 
 
